@@ -207,6 +207,21 @@ theorem InvD.of_D {g : Cfg} {s t : S} (h : D t = D s) (hi : InvD g s) : InvD g t
   · rw [h4]; exact hi.bound
   · rw [h2]; exact hi.nohang
 
+theorem invD_flip (g : Cfg) (s : S) (h : InvD g s) : InvD g (flip s) := by
+  constructor <;> simp [flip, h.pref, h.nohang]
+  · exact h.pos
+  · exact h.bound
+
+theorem invD_teardown (g : Cfg) (s : S) (h : InvD g s) (htp : s.tearPending = true → s.closed = true) :
+    InvD g (teardown s) := by
+  unfold teardown
+  split
+  · rename_i ht
+    have hc := htp ht
+    constructor <;> simp [hc, h.pref, h.nohang, allPos_nil]
+    exact h.bound
+  · exact h
+
 theorem invD_closeNow (g : Cfg) (s : S) (h : InvD g s) : InvD g (closeNow s) := by
   constructor <;> simp [closeNow, h.pref, h.nohang, allPos_nil]
   exact h.bound
@@ -299,7 +314,7 @@ theorem invD_finishCall (g : Cfg) (r : S × Ret) (hi : InvD g r.1) : InvD g (fin
     split
     · exact hi.of_D (s := r.1) rfl
     · exact hi.of_D (D_cModWrite g _)
-  · exact invD_closeNow g _ hi
+  · exact invD_flip g _ hi
 
 theorem invD_write (g : Cfg) (s : S) (b : Bytes) (k : KAns) (hi : InvD g s) : InvD g (write g s b k).1 := by
   unfold write
@@ -602,8 +617,8 @@ theorem invD_registerDial (g : Cfg) (s : S) (hi : InvD g s) : InvD g (registerDi
   · exact hi
   · exact (InvD.of_D (s := s) (t := { s with isWAdded := true, connecting := true }) rfl hi).of_D (D_pAddReadWrite g _)
 
-theorem invD_closeWE (g : Cfg) (s : S) (h : InvD g s) : InvD g (closeWE s) :=
-  invD_closeNow g _ (h.of_D (s := s) (t := stopTimer s) rfl)
+theorem invD_flipWE (g : Cfg) (s : S) (h : InvD g s) : InvD g (flipWE s) :=
+  invD_flip g _ (h.of_D (s := s) (t := stopTimer s) rfl)
 
 /-- updates of poller/kernel-side fields keep the data invariant -/
 theorem InvD.same {g : Cfg} {s t : S} (hi : InvD g s) (h1 : t.closed = s.closed) (h2 : t.hung = s.hung)
@@ -648,14 +663,14 @@ theorem invD_evEnd (g : Cfg) (s : S) (hi : InvD g s) : InvD g (evEnd g s) := by
     split
     · split
       · exact h1.same rfl rfl rfl rfl rfl rfl
-      · exact invD_closeWE g _ (h1.same rfl rfl rfl rfl rfl rfl)
+      · exact invD_flipWE g _ (h1.same rfl rfl rfl rfl rfl rfl)
     · exact h1
 
-theorem invD_close (g : Cfg) (s : S) (hi : InvD g s) : InvD g (close s) := by
-  unfold close
+theorem invD_flipClosed (g : Cfg) (s : S) (hi : InvD g s) : InvD g (flipClosed s) := by
+  unfold flipClosed
   split
   · exact hi
-  · exact invD_closeWE g s hi
+  · exact invD_flipWE g s hi
 
 theorem invD_setWriteDeadline (g : Cfg) (s : S) (z : Bool) (hi : InvD g s) : InvD g (setWriteDeadline s z) := by
   unfold setWriteDeadline
@@ -675,9 +690,10 @@ theorem invD_timerFire (g : Cfg) (s : S) (hi : InvD g s) : InvD g (timerFire s) 
   · exact hi
   · split
     · exact hi.same rfl rfl rfl rfl rfl rfl
-    · exact invD_closeWE g _ (hi.same rfl rfl rfl rfl rfl rfl)
+    · exact invD_flipWE g _ (hi.same rfl rfl rfl rfl rfl rfl)
 
-theorem invD_step (g : Cfg) (s : S) (op : Op) (hi : InvD g s) : InvD g (step g s op) := by
+theorem invD_step (g : Cfg) (s : S) (op : Op) (hi : InvD g s) (htp : s.tearPending = true → s.closed = true) :
+    InvD g (step g s op) := by
   cases op with
   | write b k => exact invD_write g s b k hi
   | writev bs k => exact invD_writev g s bs k hi
@@ -686,14 +702,10 @@ theorem invD_step (g : Cfg) (s : S) (op : Op) (hi : InvD g s) : InvD g (step g s
   | registerDial => exact invD_registerDial g s hi
   | evTake o i e ks => exact invD_evTake g s o i e ks hi
   | evEnd => exact invD_evEnd g s hi
-  | close => exact invD_close g s hi
+  | flipClosed => exact invD_flipClosed g s hi
+  | teardown => exact invD_teardown g s hi htp
   | setWriteDeadline z => exact invD_setWriteDeadline g s z hi
   | timerExpire => exact invD_timerExpire g s hi
   | timerFire => exact invD_timerFire g s hi
-
-theorem invD_run (g : Cfg) (ops : List Op) : ∀ (s : S), InvD g s → InvD g (run g s ops) := by
-  induction ops with
-  | nil => intro s h; exact h
-  | cons op ops ih => intro s h; exact ih _ (invD_step g s op h)
 
 end ConnFull
